@@ -145,12 +145,48 @@ Definition spec_foc (t : table) (cs : list cond) (attrs assigns : list arg) (o :
               && (o_ra o =? 1) && (o_writes o =? 1)
      end.
 
+(* Save of a slice stores every element's full value under its key — the key it carried, or a fresh one
+   that is handed back into the caller's element (distinct from the stored keys and from each other) —
+   and changes no other row.  With the keys handed back, saving the slice again changes nothing but
+   tracked times (each element then is a keyed Save). *)
+Definition without_all (ks : list Z) (t : table) : table :=
+  filter (fun r => negb (existsb (Z.eqb (r_id r)) ks)) t.
+Fixpoint distinctb (l : list Z) : bool :=
+  match l with [] => true | x :: r => negb (existsb (Z.eqb x) r) && distinctb r end.
+Fixpoint all2b {A B} (f : A -> B -> bool) (la : list A) (lb : list B) : bool :=
+  match la, lb with
+  | [], [] => true
+  | a :: la', b :: lb' => f a b && all2b f la' lb'
+  | _, _ => false
+  end.
+Definition spec_slice (t : table) (vs rets : list rec) (o : obs) : bool :=
+  let ids := map r_id rets in
+  negb (o_err o)
+  && distinctb ids
+  && all2b (fun v ret =>
+              same_on data_cols ret v
+              && (if r_id v =? 0 then fresh_key t (r_id ret) else r_id ret =? r_id v)
+              && match lookup (o_tbl o) (r_id ret) with
+                 | Some row => same_on data_cols row v
+                 | None => false
+                 end) vs rets
+  && tbl_eqb (without_all ids t) (without_all ids (o_tbl o))
+  && (o_ra o =? Z.of_nat (length vs)).
+
 Definition spec_step (t : table) (now : Z) (ch : list cel) (f : fin) (o : obs) : bool :=
   match f with
   | FSave v => spec_save t v o
   | FCreateOC ru v => spec_upsert t now ru v o
   | FInit ic => spec_init t (ch_conds ch ++ ic) (ch_attrs ch) (ch_assigns ch) o
   | FFoc ic => spec_foc t (ch_conds ch ++ ic) (ch_attrs ch) (ch_assigns ch) o
+  | FSaveSlice _ => false       (* needs the slice handed back: see spec_case *)
+  end.
+
+(* [rets] = the caller's slice after the call (Save of a slice), [] otherwise *)
+Definition spec_case (t : table) (now : Z) (ch : list cel) (f : fin) (rets : list rec) (o : obs) : bool :=
+  match f with
+  | FSaveSlice vs => spec_slice t vs rets o
+  | _ => spec_step t now ch f o
   end.
 
 (* ---- the domain of the theorem C16_Proofs3.model_meets_spec, as decidable checks (evaluated on
@@ -198,6 +234,13 @@ Definition in_domain (ch : list cel) (f : fin) : bool :=
       kv_alone (ch_attrs ch) && kv_alone (ch_assigns ch)
       && conds_typed (ch_conds ch ++ ic) && args_typed (ch_attrs ch) && args_typed (ch_assigns ch)
       && conds_dom (ch_conds ch ++ ic) && args_data (ch_attrs ch) && args_data (ch_assigns ch)
+  | FSaveSlice _ => false       (* not covered by model_meets_spec; its own domain is slice_dom *)
+  end.
+(* Save of a slice: the non-zero keys are distinct *)
+Definition slice_dom (f : fin) : bool :=
+  match f with
+  | FSaveSlice vs => distinctb (filter (fun k => negb (k =? 0)) (map r_id vs))
+  | _ => false
   end.
 
 (* keys strictly increasing: the table as the harness dumps it (ORDER BY id) *)
